@@ -39,6 +39,8 @@ CONSTANTS
   Jumps,          \* wall-clock steps (seconds, either sign) the environment may apply while the machine is blocked
   MaxJumps,
   FailSets,       \* sets of storage operations [k, n] that fail; one is chosen per behaviour
+  ProgressModes,  \* how the installer reports progress: "seq" awaits the observer after each value, "conc" does not
+  MaxStale,       \* how many timers of abandoned waits the environment may fire
   Bounded,        \* TRUE: the environment's budgets bound the exploration; FALSE: a recorded trace bounds it
   Mut             \* "none" or the name of a seeded design regression (model mutants)
 
@@ -180,7 +182,7 @@ InitWith(run, apps0, os0) ==
            wait |-> [untilTid |-> 0, forTid |-> 0, untilFired |-> FALSE, forFired |-> FALSE, rbTid |-> 0, rbFired |-> FALSE],
            ctlq |-> <<>>, inWfr |-> FALSE, respOwed |-> <<>>,
            op |-> [kind |-> "none", n |-> 0, next |-> "none", ctl |-> FALSE, jumped |-> FALSE],
-           nCrash |-> 0, nJump |-> 0, os |-> os0, presets |-> apps0, startM |-> 0, wfr |-> FALSE]
+           nCrash |-> 0, nJump |-> 0, nStale |-> 0, tidBase |-> 0, firedT |-> {}, os |-> os0, presets |-> apps0, startM |-> 0, wfr |-> FALSE]
   /\ obs = <<>>
   /\ g = GhostInit
   /\ script = <<>>
@@ -254,30 +256,34 @@ Quiet == st.ctlq = <<>> /\ ~WaitDone(st.wait) /\ ~st.wait.rbFired
 Budget == ~Bounded \/ IF st.pc = "R7" THEN st.nChecks < MaxChecks /\ st.cnt.check < MaxChecks + 1
           ELSE st.cnt.ping < 2 /\ st.nAsk < MaxRebootAsks
 FireTimer(which) ==
-  /\ st.pc \in {"R7", "W3"} /\ Quiet /\ Budget
+  /\ \/ st.pc \in {"R7", "W3"} /\ Quiet /\ Budget
+     \* the reboot-question timer stays armed while a ping is in flight: it may fire then and is seen afterwards
+     \/ st.pc = "OP" /\ st.inWfr /\ which = "rb"
   /\ LET tid == IF which = "until" THEN st.wait.untilTid ELSE IF which = "for" THEN st.wait.forTid ELSE st.wait.rbTid
          fired == IF which = "until" THEN st.wait.untilFired ELSE IF which = "for" THEN st.wait.forFired ELSE st.wait.rbFired
-         n == st.cnt.idle + 1 IN
+         at == IF st.pc = "OP" THEN st.op.kind ELSE "idle"
+         n == IF st.pc = "OP" THEN st.op.n ELSE st.cnt.idle + 1 IN
      /\ tid # 0 /\ ~fired
-     /\ (which = "rb" => st.pc = "W3")
+     /\ (which = "rb" => st.pc \in {"W3", "OP"})
      /\ Emit(<<Stamp([k |-> "tm.fire", tid |-> tid], st.clk)>>)
-     /\ script' = script \o Stim("idle", n, [s |-> "fire", sel |-> "tid", tid |-> tid])
-     /\ st' = [st EXCEPT !.clk = Tick(@), !.cnt.idle = n,
+     /\ script' = script \o Stim(at, n, [s |-> "fire", sel |-> "tid", tid |-> tid])
+     /\ st' = [st EXCEPT !.clk = Tick(@), !.cnt.idle = IF st.pc = "OP" THEN @ ELSE n, !.firedT = @ \cup {tid},
                          !.wait.untilFired = @ \/ which = "until", !.wait.forFired = @ \/ which = "for",
                          !.wait.rbFired = @ \/ which = "rb"]
 
 \* a timer armed for an earlier wait fires after that wait was abandoned (a request arrived first, the reboot question
 \* was answered): nobody is listening any more.  Only time passes.
 FireStale(tid) ==
-  /\ st.pc \in {"R7", "W3", "OP"} /\ tid \in 1..st.ids.tid
-  /\ IF st.pc = "OP" THEN ~(st.op.kind = "idle" /\ tid = st.ids.tid)
+  \* (a timer of this process that has not fired yet)
+  /\ st.pc \in {"R7", "W3", "OP"} /\ tid \in (st.tidBase + 1)..st.ids.tid /\ tid \notin st.firedT /\ (~Bounded \/ (st.nStale < MaxStale /\ (st.pc = "OP" \/ (Quiet /\ Budget))))
+  /\ IF st.pc = "OP" THEN ~(st.op.kind = "idle" /\ tid = st.ids.tid) /\ ~(st.inWfr /\ tid = st.wait.rbTid)
                      ELSE tid \notin {st.wait.untilTid, st.wait.forTid, st.wait.rbTid}
   /\ LET backoff == st.pc = "OP" /\ st.op.kind = "idle"
          at == IF st.pc = "OP" THEN st.op.kind ELSE "idle"
          n == IF st.pc = "OP" THEN st.op.n ELSE st.cnt.idle + 1 IN
      /\ Emit(<<Stamp([k |-> "tm.fire", tid |-> tid], st.clk)>>)
      /\ script' = script \o Stim(at, n, [s |-> "fire", sel |-> "tid", tid |-> tid])
-     /\ st' = [st EXCEPT !.clk = Tick(@), !.op.n = IF backoff THEN @ + 1 ELSE @,
+     /\ st' = [st EXCEPT !.clk = Tick(@), !.nStale = @ + 1, !.firedT = @ \cup {tid}, !.op.n = IF backoff THEN @ + 1 ELSE @,
                          !.cnt.idle = IF st.pc = "OP" /\ ~backoff THEN @ ELSE @ + 1]
 
 \* the wall clock is stepped (NTP, user) while the machine is blocked in an operation or in a select; the
@@ -342,6 +348,7 @@ CrashTo(s, run) ==
                     !.ctlq = <<>>, !.inWfr = FALSE, !.respOwed = <<>>, !.nAsk = 0,
                     !.op = [kind |-> "none", n |-> 0, next |-> "none", ctl |-> FALSE, jumped |-> FALSE],
                     !.cnt.idle = IF s.pc = "OP" THEN @ ELSE @ + 1,
+                    !.tidBase = s.ids.tid, !.firedT = {},
                     !.nCrash = @ + 1, !.os = run.os, !.presets = run.apps, !.startM = s.clk.m,
                     !.wfr = WfrOwed(comm, run.os)]]
 (***************************************************************************)
@@ -370,7 +377,8 @@ Pseudo(pre, s) ==
       answered == {pre[i].req : i \in IdxWhere(pre, LAMBDA e : e.k = "ctl.reply")}
       out == SelectSeq([i \in 1..Len(pre) |-> i], LAMBDA i : i \in sent /\ pre[i].req \notin answered) IN
   [s EXCEPT !.pc = "OP", !.op.kind = last.k,
-            !.clk = [w |-> last.tw, m |-> last.tm],
+            \* (time passes when an operation completes or a timer fires: a fire is the only line followed by a tick)
+            !.clk = IF last.k = "tm.fire" THEN [w |-> last.tw + 1, m |-> last.tm + 1] ELSE [w |-> last.tw, m |-> last.tm],
             !.store.comm = CommOf(SubSeq(pre, 1, MaxOr0(IdxWhere(pre, LAMBDA e : e.k # "ctl.reply")) - 1)),   \* (the last line is the operation still pending)
             !.store.cnt = [k \in {"st.set", "st.rm", "st.commit"} |-> CountK(pre, k)],
             !.cnt = [uc |-> CountK(pre, "http.uc"), ev |-> CountK(pre, "http.ev"), ping |-> CountK(pre, "http.ping"),
@@ -540,7 +548,7 @@ P4b_Classify(draw) ==
 P4w_BackoffDone ==
   /\ st.pc = "OP" /\ st.op.kind = "idle"
   /\ Emit(<<Stamp([k |-> "tm.fire", tid |-> st.ids.tid], st.clk)>>)
-  /\ st' = [st EXCEPT !.pc = "P4a", !.clk = Tick(@), !.ck.attempt = @ + 1]
+  /\ st' = [st EXCEPT !.pc = "P4a", !.clk = Tick(@), !.ck.attempt = @ + 1, !.firedT = @ \cup {st.ids.tid}]
   /\ UNCHANGED script
 
 BodyDoc(a) == Has(a.body, "doc")
@@ -975,6 +983,7 @@ Next ==
   \/ \E dw \in Jumps : ClockJump(dw)
   \/ R5
   \/ \E w \in {"until", "for", "rb"} : FireTimer(w)
+  \/ \E tid \in 1..st.ids.tid : FireStale(tid)
   \/ \E s \in CtlSources : CtlSendIdle(s)
   \/ R7_TakeTimer \/ R7_TakeCtl
   \/ \E a \in CheckAnswers : R8_Allowed(a)
@@ -989,7 +998,7 @@ Next ==
   \/ \E s \in CtlSources : CtlSendBusy(s)
   \/ \E a \in StartAnswers : P10_CanStart(a)
   \/ P10r \/ P10d_NotNow \/ P11_Started \/ P12_FirstSeen
-  \/ (st.pc = "P13" /\ \E r \in ResultSeqs(Len(Offered(st.ck.doc))) : \E p \in ProgressSeqs : P13_Install(r, p))
+  \/ (st.pc = "P13" /\ \E r \in ResultSeqs(Len(Offered(st.ck.doc))) : \E p \in ProgressSeqs : \E pm \in ProgressModes : P13_InstallM(r, p, pm))
   \/ P15_AppEvents \/ P16_Complete \/ P17 \/ P18_Errors
   \/ \E a \in NeededAnswers : P20_Needed(a)
   \/ S3_Ok \/ S4_Err \/ S5_Close
